@@ -4,19 +4,19 @@ import json
 META = {
     "level": "model_checking",
     "technique": "TLA+ network model of floodsub (subscriptions, partial views, per-link RPC queues, received-cache) model-checked for at-most-once delivery, delivery only to subscribers, no echo to the propagation source, at-most-once forwarding and no self-delivery (canaries: no dedup, echo back, own message not remembered); 2-5 REAL floodsub Behaviours wired by the driver (every RPC through the real wire codec), every step validated by TLC against the property-level trace specification",
-    "text": "specs/FloodNet.tla: 3 nodes, 1-2 topics, 1-2 messages, publish / publish_any, subscribe / unsubscribe while messages are in flight, RPC reordering per link; invariants DeliverOnce, OnlySubscribed, NoEcho, ForwardOnce, NoSelfDelivery. harness/drv-xfloodsub: the driver is the network - it drains every node's poll(), queues each NotifyHandler RPC on its directed link and delivers RPCs in schedule order (optionally reordered: every floodsub RPC is its own substream) through FloodsubRpc::upgrade_outbound -> pipe -> FloodsubProtocol::upgrade_inbound into on_connection_handler_event; ops: connect (up to 2 connections per pair) / disconnect / add_node_to_partial_view / remove / subscribe / unsubscribe / publish_many(_any) / deliver / forged look-alike messages. specs/TraceFloodNet.tla rebuilds connections, partial views, subscriptions, announced views, links and seen-sets from the events and requires of every step: subscribe/unsubscribe results and exactly-once announcements, exactly the owed message copies (never back to the sender, never twice), Event::Message at most once and only when subscribed, local copy iff subscribe_local_messages, codec fidelity, redial after losing a partial-view peer, agreement of announced views at quiescence.",
+    "text": "specs/FloodNet.tla: 3 nodes, 1-2 topics, 1-2 messages, publish / publish_any, subscribe / unsubscribe while messages are in flight, RPC reordering per link; invariants DeliverOnce, OnlySubscribed, NoEcho, ForwardOnce, NoSelfDelivery. harness/drv-xfloodsub: the driver is the network - it drains every node's poll(), queues each NotifyHandler RPC on its directed link and delivers RPCs in schedule order (optionally reordered: every floodsub RPC is its own substream) through FloodsubRpc::upgrade_outbound -> pipe -> FloodsubProtocol::upgrade_inbound into on_connection_handler_event; three schedule sources (directed, seeded random, bounded-exhaustive on a triangle); ops: connect (up to 2 connections per pair) / disconnect / add_node_to_partial_view / remove / subscribe / unsubscribe / publish_many(_any) / deliver / forged look-alike messages. specs/TraceFloodNet.tla rebuilds connections, partial views, subscriptions, announced views, links and seen-sets from the events and requires of every step: subscribe/unsubscribe results and exactly-once announcements, exactly the owed message copies (never back to the sender, never twice), Event::Message at most once and only when subscribed, local copy iff subscribe_local_messages, codec fidelity, redial after losing a partial-view peer, agreement of announced views at quiescence.",
     "note": "Message identity is the whole message (source, seqno, data, topics) as the code documents; the (source, seqno) identity of the pubsub spec is NOT enforced by rust-libp2p floodsub (named deviation: a forged look-alike is treated as a different message). Forwarding back to the message's source is allowed but not required. The 65536-entry received-cache is never filled. Handler (OneShotHandler) and multistream negotiation are not exercised; RPCs enter at on_connection_handler_event.",
 }
 
 
 def run(c):
     c.tlc_mc("MCFloodNet", "MCFloodNet.cfg")
-    c.tlc_mc("MCFloodNet", "MCFloodNet_asym.cfg")
     c.tlc_mc("MCFloodNet", "MCFloodNet_canary_dup.cfg", expect="DeliverOnce")
     c.tlc_mc("MCFloodNet", "MCFloodNet_canary_echo.cfg", expect="NoEcho")
     c.tlc_mc("MCFloodNet", "MCFloodNet_canary_own.cfg", expect=["NoSelfDelivery", "ForwardOnce"])
-    c.tlc_mc("MCFloodNet", "MCFloodNet_canary_own2.cfg", expect=["NoSelfDelivery", "ForwardOnce"])
     if not c.quick:
+        c.tlc_mc("MCFloodNet", "MCFloodNet_asym.cfg")
+        c.tlc_mc("MCFloodNet", "MCFloodNet_canary_own2.cfg", expect=["NoSelfDelivery", "ForwardOnce"])
         c.tlc_mc("MCFloodNet", "MCFloodNet_b4.cfg", timeout=1500)
         c.tlc_mc("MCFloodNet", "MCFloodNet_big.cfg", timeout=1500)
         c.tlc_mc("MCFloodNet", "MCFloodNet_big2.cfg", timeout=1500)
@@ -29,8 +29,11 @@ def run(c):
         t1 = c.rundir / "directed.ndjson"
         c.drive(drv, ["net", "directed", t1])
         t2 = c.rundir / "rand.ndjson"
-        c.drive(drv, ["net", "random", c.seed, c.pick(120, 4000), t2])
-        traces = [t1, t2]
+        c.drive(drv, ["net", "random", c.seed, c.pick(100, 4000), t2])
+        t3 = c.rundir / "exh.ndjson"
+        # variants: 1 = nodes 1,2 subscribed beforehand, +2 = node 2 missing from node 0's partial view, +4 = reordering links, +8 = subscribe_local_messages
+        c.drive(drv, ["net", "exhaustive", c.pick(3, 4), c.pick("3,13", "1,3,5,7,9,15,0,6"), t3])
+        traces = [t1, t2, t3]
     distinct = set()
     for t in traces:
         ok, total = c.tlc_trace("TraceFloodNet", t, timeout=2400)
@@ -46,7 +49,7 @@ def run(c):
     c.distinct_nontrivial = len(distinct)
     return c.finish(
         "model_checking",
-        rule="schedule = (nodes 2-5, topics 1-3, subscribe_local_messages per node, fifo or reordering links, op sequence over conn/disc/view/unview/sub/unsub/pub/inj/dlv/flush); 18 directed scenarios plus seeded random schedules of 8-70 ops generated online (deliveries only on busy links); distinct = distinct schedules with a publish and a delivery",
+        rule="schedule = (nodes 2-5, topics 1-3, subscribe_local_messages per node, fifo or reordering links, op sequence over conn/disc/view/unview/sub/unsub/pub/inj/dlv/flush); 18 directed scenarios, seeded random schedules of 8-70 ops generated online (deliveries only on busy links), and every enabled op sequence of length 3 (thorough: 4) over subscribe/unsubscribe/publish(_any)/deliver on a three-node triangle in 2 (thorough: 8) start configurations; distinct = distinct schedules with a publish and a delivery",
         assumptions=["the driver plays Swarm and network: one RPC per NotifyHandler, RPCs of a closed link are lost",
                      "message identity = whole message; the received-cache (65536 entries) is never full"],
     )
